@@ -41,3 +41,15 @@ pub proof fn lemma_int_value_{I}_{J}(data: Seq<{I}>, len: int, x: {J}, cap: int)
         if b < {J.bits} { assert(!wbit{Y}(x, b as nat)); }
     }
 }
+/// a vector of {J.bits} bits whose value is the native integer x has exactly the bits of x
+pub proof fn lemma_int_bits_{I}_{J}(data: Seq<{I}>, x: {J})
+    requires {J.bits} <= data.len() * {I.bits}, fval(|b: int| 0 <= b < {J.bits} && bit_at{X}(data, b), {J.bits}) == x as nat
+    ensures forall|b: int| 0 <= b < {J.bits} ==> #[trigger] bit_at{X}(data, b) == wbit{Y}(x, b as nat)
+{
+    let g = |b: int| 0 <= b < {J.bits} && bit_at{X}(data, b);
+    lemma_word_val{Y}(x);
+    lemma_fval_injective(g, wordf{Y}(x), {J.bits});
+    assert forall|b: int| 0 <= b < {J.bits} implies #[trigger] bit_at{X}(data, b) == wbit{Y}(x, b as nat) by {
+        assert(g(b) == wordf{Y}(x)(b));
+    }
+}
